@@ -855,8 +855,12 @@ pub fn gen_frame_stream(t: &mut Tape, o: &FrameOpts) -> (Stream, Vec<String>) {
                 if p.words.len() >= 2 && p.words[1][0..6].iter().all(|b| *b == 0) {
                     p.words[1][0] = 1;
                 }
-                if p.words.len() == 1 && p.pad < 6 && p.pad > 0 {
-                    // fewer than 16 bytes: detection reads what is there; 0xFF != 0 so fine
+                // a last word ending in 0xFF is indistinguishable from one more byte of padding: outside the format's
+                // unambiguous domain
+                if let Some(l) = p.words.last_mut() {
+                    if l[9] == 0xFF {
+                        l[9] = 0xFE;
+                    }
                 }
             }
         } else {
@@ -1083,6 +1087,28 @@ pub fn mutate_stream(t: &mut Tape, s: &mut Stream, o: &MutOpts, n_edits: usize, 
                     r.link_id = lid;
                 } else {
                     r.fee_id = fee;
+                }
+            }
+        }
+    }
+    if o.keep_layout {
+        sanitize_layout(s);
+    }
+}
+
+/// keep every format-2 payload unambiguous: bytes 10..15 not all zero (else read as 16-byte slots), last word not
+/// ending in 0xFF (else its last byte reads as padding)
+pub fn sanitize_layout(s: &mut Stream) {
+    for l in s.links.iter_mut() {
+        for p in l.packets.iter_mut() {
+            if p.raw.is_none() && p.rdh.data_format() != 0 {
+                if p.words.len() >= 2 && p.words[1][0..6].iter().all(|b| *b == 0) {
+                    p.words[1][0] = 1;
+                }
+                if let Some(w) = p.words.last_mut() {
+                    if w[9] == 0xFF {
+                        w[9] = 0xFE;
+                    }
                 }
             }
         }
